@@ -727,3 +727,30 @@ def run(ctx):
             )
 
     ctx.section(_sec_append)
+
+    def _sec_cli():
+        # ---------------------------------------------------------------- cli
+        # "for all non-empty CRUD subsets of {C,R,D}": every such subset must be requestable — the `--crud` choices of
+        # gen_routes (a finite tuple, folded) contain all seven, spelled in the canonical letter order the emitters test
+        from ..dispatch import cli_choices
+        from ..fold import ModuleEnv
+
+        ch = cli_choices(index, ModuleEnv(index)).get(("gen_routes", "--crud"))
+        ctx.need(ch and not str(ch[0]).startswith("<unfoldable"), "cannot fold the --crud choices of gen_routes")
+        wanted = ("C", "R", "D", "CR", "CD", "RD", "CRD")
+        missing = [w for w in wanted if w not in ch]
+        dup = sorted({c_ for c_ in ch if list(ch).count(c_) > 1})
+        ok = not missing
+        ctx.ob(
+            "C16.crud",
+            index.func("cdd.__main__._build_parser"),
+            "every non-empty subset of {C, R, D} is a --crud choice",
+            ok,
+            ""
+            if ok
+            else "`gen_routes --crud {}` is rejected by the CLI (invalid choice): the choices are {}{} — that subset of operations "
+            "cannot be requested".format(missing[0], tuple(ch), " (with {} listed twice)".format(dup) if dup else ""),
+            line=index.func("cdd.__main__._build_parser").node.lineno,
+        )
+
+    ctx.section(_sec_cli)
